@@ -239,3 +239,118 @@ def elem_tn(d):
     if d.startswith("["): return "array"
     if d.startswith("{"): return "inline_table"
     return "?"
+
+
+# ---- accv: toml::Value through its read API (Model/AccessorsToml.v acc_tv) ---------------------------
+TV_KINDS = ["string", "integer", "float", "boolean", "datetime", "array", "table"]
+
+
+def _dump_node(s, i):
+    """parse the `doc` tree dump at i; returns (normal form with every table erased to {sorted k=v}, next index)"""
+    if s.startswith("T{", i) or s[i] == "{":
+        i += 2 if s[i] == "T" else 1
+        ents = []
+        while s[i] != "}":
+            if ents:
+                assert s[i] == ","; i += 1
+            j = s.index("=", i); k = s[i:j]
+            v, i = _dump_node(s, j + 1)
+            ents.append((k, v))
+        return "{%s}" % ",".join("%s=%s" % kv for kv in sorted(ents)), i + 1
+    if s.startswith("A[", i) or s[i] == "[":
+        i += 2 if s[i] == "A" else 1
+        els = []
+        while s[i] != "]":
+            if els:
+                assert s[i] == ","; i += 1
+            v, i = _dump_node(s, i)
+            els.append(v)
+        return "[%s]" % ",".join(els), i + 1
+    j = i
+    while j < len(s) and s[j] not in ",]}":
+        j += 1
+    tok = s[i:j]
+    if tok.startswith("f:"):
+        tok = "f:?"
+    return tok, j
+
+
+def erase(dump):
+    return _dump_node(dump, 0)[0]
+
+
+def _tv(p):
+    tn = p.tn(); p.eat("/")
+    flags = p.rx(r"[01]{7}"); p.eat("/")
+    same = p.rx(r"[01]{7}"); p.eat("/")
+    pl = []
+    if p.peek() == "-":
+        p.i += 1
+    else:
+        while True:
+            if p.peek(3) == "f:?":
+                p.i += 3; pl.append("f:?")
+            elif p.peek(2) == "m:":
+                pl.append(p.rx(r"m:[0-9]+"))
+            else:
+                pl.append(p.payload_item())
+            if p.peek() != "+":
+                break
+            p.i += 1
+    if tn not in TV_KINDS or flags.count("1") != 1 or flags.index("1") != TV_KINDS.index(tn):
+        raise Bad("toml::Value %s: is_x flags %s" % (tn, flags))
+    if same != flags:
+        raise Bad("toml::Value %s: same_type against the seven kinds gives %s" % (tn, same))
+    if tn == "array":
+        p.eat("[")
+        els = []
+        while p.peek() != "]":
+            if els:
+                p.eat(",")
+            t, d = _tv(p); p.eat("@"); g = p.tn()
+            if g != t:
+                raise Bad("Value::get(i) hands out a %s where iteration gave a %s" % (g, t))
+            els.append(d)
+        p.i += 1
+        if p.tn() != "NONE":
+            raise Bad("Value::get(len) of an array is not None")
+        if pl != ["n:%d" % len(els)]:
+            raise Bad("array payload %r with %d elements" % (pl, len(els)))
+        return tn, "[%s]" % ",".join(els)
+    if tn == "table":
+        p.eat("{")
+        ents = []
+        while p.peek() != "}":
+            if ents:
+                p.eat(",")
+            k = p.rx(r"-|[0-9a-f]+"); p.eat("=")
+            t, d = _tv(p); p.eat("@"); g = p.tn()
+            if g != t:
+                raise Bad("Value::get(key) hands out a %s where iteration gave a %s" % (g, t))
+            ents.append((k, d))
+        p.i += 1
+        if pl != ["m:%d" % len(ents)]:
+            raise Bad("table payload %r with %d entries" % (pl, len(ents)))
+        return tn, "{%s}" % ",".join("%s=%s" % kv for kv in sorted(ents))
+    want = {"string": "s:", "integer": "i:", "float": "f:", "boolean": "b:", "datetime": "dt("}[tn]
+    if len(pl) != 1 or not pl[0].startswith(want):
+        raise Bad("toml::Value %s: as_x payload %r" % (tn, pl))
+    return tn, pl[0]
+
+
+def judge_tv(line, expect):
+    if not line.startswith("ok accv="):
+        return "valid document rejected by toml::from_str::<Value>"
+    try:
+        body = line[len("ok accv="):]
+        p = P(body)
+        tn, d = _tv(p)
+        if p.i != len(body):
+            raise Bad("trailing %r" % body[p.i:p.i + 30])
+        if tn != "table":
+            raise Bad("root is a %s" % tn)
+        if d != erase(expect):
+            return "the toml::Value read through as_x accessors differs from the reference decoding"
+    except Bad as e:
+        return str(e)
+    return None
